@@ -191,29 +191,39 @@ def _seg_env(rng):
             "locale": rng.choice(["utf8", "utf8", "ascii", "utf8mode"])}
 
 
-def plan_roundtrip(fmt, seed, tier):
+def plan_roundtrip(fmts, seed, tier):
     """C01/C05/C06/C07/C08 (+C02 on every model read): lineages of write -> disk -> read cycles,
-    across interpreter restarts, with and without faults."""
-    b = Builder(seed, "roundtrip." + fmt, tier)
+    across interpreter restarts, with and without faults.  `fmts` is one format, or several for
+    the mixed scenario: every lineage has its own format, all lineages share one name pool and
+    one interpreter (state leaking from one reader / writer to another shows there)."""
+    if isinstance(fmts, str):
+        fmts = [fmts]
+    mixed = len(fmts) > 1
+    b = Builder(seed, "roundtrip." + ("mixed" if mixed else fmts[0]), tier)
     rng = b.rng
+    if mixed:
+        fmts = rng.sample(fmts, rng.choice([2, 2, 3]))
+    fmt = fmts[0]
+    poolfrag = fmt if not mixed else ("afm" if "afm" in fmts else "uvl")
     faulty = rng.random() < 0.5
     buggify = rng.random() < 0.5
     b.plan["faulty"] = faulty
     nseg = rng.choice([1, 2, 2, 3])
     big = tier == "thorough"
     cfg = gen.default_cfg(rng, fmt, tier)
-    pool = gen.name_pool(rng, fmt, rng.randint(16, 40) if cfg["size"] == "l" else
+    pool = gen.name_pool(rng, poolfrag, rng.randint(16, 40) if cfg["size"] == "l" else
                          rng.randint(6, 14))
     if rng.random() < 0.3:
         cfg["nonascii_values"] = True
     lineages = []   # dict(ref, handle or None, path or None)
     path_ref = {}   # what each cleanly written path holds (as planned)
-    for _ in range(rng.randint(1, 3)):
-        c = dict(cfg)
-        if fmt == "fide" and rng.random() < 0.35:
+    for li in range(rng.randint(max(1, len(fmts)), 3)):
+        lfmt = fmts[li % len(fmts)]
+        c = dict(cfg) if lfmt == fmt else gen.default_cfg(rng, lfmt, tier)
+        if lfmt == "fide" and rng.random() < 0.35:
             c["force_no_ctc"] = True
-        lineages.append({"ref": gen.gen_model(rng, fmt, pool, c), "h": None, "path": None,
-                         "cfg": c})
+        lineages.append({"ref": gen.gen_model(rng, lfmt, pool, c), "h": None, "path": None,
+                         "cfg": c, "fmt": lfmt})
     for s in range(nseg):
         b.segment(env=_seg_env(rng), disk_cfg=b.disk_cfg(buggify), cwd=rng.choice(DIRS))
         last_seg = s == nseg - 1
@@ -224,6 +234,7 @@ def plan_roundtrip(fmt, seed, tier):
         nsteps = rng.randint(4, 14 if not big else 30)
         for step in range(nsteps):
             lin = rng.choice(lineages)
+            fmt = lin["fmt"]
             if lin["h"] is None:
                 if lin["path"] is not None and rng.random() < 0.7:
                     h = b.handle()
@@ -314,18 +325,19 @@ def plan_roundtrip(fmt, seed, tier):
                 torn = True
                 break
             else:
-                nl = {"ref": gen.gen_model(rng, fmt, pool, cfg), "h": None, "path": None,
-                      "cfg": cfg}
+                nl = {"ref": gen.gen_model(rng, fmt, pool, lin["cfg"]), "h": None, "path": None,
+                      "cfg": lin["cfg"], "fmt": fmt}
                 lineages.append(nl)
         if torn:
             continue
         if last_seg:
             break
     # the segment after a tear starts by reading what the killed writer left behind
-    _insert_torn_reads(b, fmt)
+    _insert_torn_reads(b)
     # HEAL: no more faults; every lineage does one clean write + read from a fresh build
     b.segment(env=_seg_env(rng), disk_cfg={"bufsize": 8192}, cwd="d0")
     for lin in lineages:
+        fmt = lin["fmt"]
         h = b.handle()
         b.op(op="NEW", m=h, ref=lin["ref"], style="td", frag=fmt)
         path = b.path(fmt, "d0")
@@ -351,12 +363,12 @@ def _is_readback(b, handle):
     return False
 
 
-def _insert_torn_reads(b, fmt):
+def _insert_torn_reads(b):
     segs = b.plan["segments"]
     for sidx in range(len(segs) - 1):
         ops = segs[sidx]["ops"]
         if ops and ops[-1]["op"] == "WRITE" and (ops[-1].get("fault") or {}).get("kind") == "tear":
-            op = {"op": "READ", "fmt": fmt, "path": ops[-1]["path"], "pathstyle": "abs",
+            op = {"op": "READ", "fmt": ops[-1]["fmt"], "path": ops[-1]["path"], "pathstyle": "abs",
                   "missing_ok": True, "i": b.i}
             b.i += 1
             segs[sidx + 1]["ops"].insert(0, op)
@@ -364,6 +376,7 @@ def _insert_torn_reads(b, fmt):
 
 for _fmt in HAS_READER:
     SCENARIOS["roundtrip." + _fmt] = (lambda seed, tier, _f=_fmt: plan_roundtrip(_f, seed, tier))
+SCENARIOS["roundtrip.mixed"] = lambda seed, tier: plan_roundtrip(list(HAS_READER), seed, tier)
 
 
 # =========================================================================== C19 / C17 sessions
